@@ -1,9 +1,400 @@
-/- C01 — placeholder while the harness is brought up; replaced by the real theorems. -/
-import DulwichModel.Model.Objects
+/-
+  C01 — Object names are content hashes; serialisation is lossless and git-identical.
+
+  Only property theorems, non-vacuity examples and negation witnesses live here; helper lemmas are in
+  Lemmas/Objects*.lean.  The model is Model/Objects*.lean; its constants (header names and order, type
+  table, separators, format widths, timezone arithmetic, the table of public setters and what each does
+  to the cache flags) come from Gen/Objects.lean, regenerated from /repo on every run.
+-/
+import DulwichModel.Lemmas.ObjectsCache
+import DulwichModel.Lemmas.ObjectsText
+import DulwichModel.Lemmas.ObjectsTree
+import DulwichModel.Lemmas.ObjectsCommit
 
 namespace Dulwich.Props.C01
 open Dulwich Dulwich.Objects
 
+/-! ## 1. The id is the hash of header ++ content after any sequence of setter calls -/
+
+section cache
+variable {F : Type}
+
+/-- **Invariant over histories.**  Start from any state satisfying the invariant (a fresh object does),
+apply any sequence of public setters that touch the flags (kind ≠ 0), `set_raw_string`, `id` and
+`as_raw_string()` calls: `id` then returns `H (object_header ++ content)` where content is what
+`as_raw_string()` returns.  `H` is an arbitrary function (SHA-1, SHA-256, anything). -/
+theorem id_is_hash_always (H : Bytes → Bytes) (C : Cls F) (hA : AliasClass C) (s0 : St F) (h0 : Inv H C s0)
+    (ops : List (Op F)) (hops : ∀ op ∈ ops, op.invalidating) :
+    (shaStep H C (run H C s0 ops)).1 = (content C (run H C s0 ops)).bind (nameOf H C) :=
+  shaStep_fst H C _ (run_inv H C hA ops s0 hops h0)
+
+/-- The content follows the fields: right after a dirty-marking setter (every `serializable_property`,
+`Commit.parents`, `Tag.object`, `Tree.add/__setitem__/__delitem__`), and after any number of reads, the
+content is the serialisation of the *new* field values. -/
+theorem content_tracks_fields (H : Bytes → Bytes) (C : Cls F) (s : St F) (u : F → F)
+    (reads : List (Op F)) (hr : ∀ op ∈ reads, op.isRead) :
+    content C (run H C (setStep C 1 u s) reads) = C.ser (u s.fields) := by
+  rw [(run_reads H C reads _ hr).1]
+  simp [content, setStep]
+
+/-- After `set_raw_string(b)` (when `_deserialize` accepts `b`) the content is `b`, also after reads. -/
+theorem content_after_setRaw (H : Bytes → Bytes) (C : Cls F) (s : St F) (b : Bytes)
+    (hd : (C.deser s.fields b).isSome) (reads : List (Op F)) (hr : ∀ op ∈ reads, op.isRead) :
+    content C (run H C (setRawStep C b s) reads) = some b := by
+  rw [(run_reads H C reads _ hr).1]
+  unfold setRawStep
+  split
+  · simp [content]
+  · rename_i h; simp [h] at hd
+
+/-- **Corollary (the statement of the property).**  After any admissible history, one more setter
+`u` and any reads, the id is the hash of header ++ serialisation of the current field values. -/
+theorem id_after_edit (H : Bytes → Bytes) (C : Cls F) (hA : AliasClass C) (s0 : St F) (h0 : Inv H C s0)
+    (ops : List (Op F)) (hops : ∀ op ∈ ops, op.invalidating) (u : F → F)
+    (reads : List (Op F)) (hr : ∀ op ∈ reads, op.isRead) :
+    let s := run H C s0 ops
+    (shaStep H C (run H C (setStep C 1 u s) reads)).1 = (C.ser (u s.fields)).bind (nameOf H C) := by
+  intro s
+  have hs : Inv H C s := run_inv H C hA ops s0 hops h0
+  have h1 : Inv H C (setStep C 1 u s) := setStep_inv H C hA 1 u s (by decide) hs
+  have h2 := run_inv H C hA reads _ (fun op h => isRead_invalidating (hr op h)) h1
+  rw [shaStep_fst H C _ h2, content_tracks_fields H C s u reads hr]
+
+/-- Fresh objects satisfy the invariant. -/
+theorem fresh_inv (H : Bytes → Bytes) (C : Cls F) (hna : C.alias = false) (f : F) : Inv H C (freshInit f) :=
+  ⟨fun hn => by simp [freshInit] at hn, fun ha => by simp [hna] at ha⟩
+
+theorem blob_inv (H : Bytes → Bytes) : Inv H blobCls blobInit :=
+  ⟨fun _ d hd => by simp [blobInit] at hd, fun _ => rfl⟩
+
+theorem blob_aliasClass : AliasClass blobCls := fun _ _ b => ⟨b, rfl, rfl⟩
+
+/-- Tie to the source: every public setter the translator found in `Blob`, `Tree`, `Commit`, `Tag`
+touches the flags — except `Blob.chunked`. -/
+theorem setters_invalidate :
+    ∀ e ∈ OGen.setters, e ≠ ("Blob", "chunked", 0) → e.2.2 ≠ 0 := by decide
+
+/-- … and `Blob.chunked` is in the table with kind 0: it only assigns `_chunked_text`. -/
 theorem blob_chunked_kind : setterKind "Blob" "chunked" = some 0 := by decide
+
+/-- Non-vacuity: the table is not empty and contains the setters the property talks about. -/
+example : setterKind "Commit" "author" = some 1 ∧ setterKind "Tag" "object" = some 1 ∧
+    setterKind "Tree" "add" = some 1 ∧ setterKind "Blob" "data" = some 2 ∧ OGen.setters.length = 24 := by decide
+
+/-- **Negation witness (DESIGN F1).**  With the `Blob.chunked` setter as coded (kind 0) the invariant
+fails: `b.data = b"x"; b.id; b.chunked = [b"y"]; b.id` returns the name of `x` although the content is
+`y` — for every injective hash. -/
+theorem id_stale_after_chunked_counterexample (H : Bytes → Bytes) (hH : ∀ a b, H a = H b → a = b) :
+    let s := run H blobCls blobInit [.set 2 (fun _ => [120]), .getId, .set 0 (fun _ => [121])]
+    content blobCls s = some [121] ∧
+    (shaStep H blobCls s).1 ≠ (content blobCls s).bind (nameOf H blobCls) := by
+  have hs : run H blobCls blobInit [.set 2 (fun _ => [120]), .getId, .set 0 (fun _ => [121])]
+      = ⟨[121], false, some (H [98, 108, 111, 98, 32, 49, 0, 120]), some [121]⟩ := rfl
+  have e2 : hashInput 3 [121] = some [98, 108, 111, 98, 32, 49, 0, 121] := by decide
+  simp only [hs]
+  refine ⟨rfl, ?_⟩
+  have hl : (shaStep H blobCls ⟨[121], false, some (H [98, 108, 111, 98, 32, 49, 0, 120]), some [121]⟩).1
+      = some (H [98, 108, 111, 98, 32, 49, 0, 120]) := rfl
+  have hr : (content blobCls ⟨[121], false, some (H [98, 108, 111, 98, 32, 49, 0, 120]), some [121]⟩).bind
+      (nameOf H blobCls) = some (H [98, 108, 111, 98, 32, 49, 0, 121]) := by
+    simp [content, nameOf, blobCls, e2]
+  rw [hl, hr]
+  intro h
+  have := hH _ _ (Option.some.inj h)
+  simp at this
+
+end cache
+
+/-! ## 2. Header folding: `_parse_message (_format_message hs body) = (hs, body)` -/
+
+/-- **Message round trip.**  For every list of headers whose field names are non-empty and contain
+neither space nor LF (`WFHeaders`, decidable) and *arbitrary* byte values — embedded, leading, trailing
+and repeated LFs, leading spaces, NULs included — and every body, parsing the formatted text returns
+exactly the headers, in order, and the body (`None` and `b""` both give `b""`: the blank line is always
+written). -/
+theorem parse_format_message (hs : Headers) (body : Option Bytes) (hwf : WFHeaders hs) :
+    parseMessage (formatMessage hs body) = .ok (hs, some (body.getD [])) := by
+  unfold parseMessage formatMessage splitLines
+  rw [parseLines_format hs hwf]
+  simp [flushHeader]
+
+/-- Non-vacuity: a multi-line value with a blank line and a trailing LF, and a value starting with a
+space; the instance evaluates as the theorem says. -/
+example : WFHeaders [([116, 114, 101, 101], [97]), ([103, 112, 103, 115, 105, 103], [97, 10, 10, 32, 98, 10]),
+    ([120], [32, 10])] := by decide
+
+example : parseMessage (formatMessage [([103], [97, 10, 10, 32, 98, 10])] (some [109]))
+    = .ok ([([103], [97, 10, 10, 32, 98, 10])], some [109]) :=
+  parse_format_message _ _ (by decide)
+
+/-- Negation witness for the hypothesis: a field name containing a space does not survive. -/
+theorem parse_format_message_needs_wf_counterexample :
+    parseMessage (formatMessage [([97, 32, 98], [99])] none) ≠ .ok ([([97, 32, 98], [99])], some []) := by
+  decide
+
+/-! ## 3. Time zones -/
+
+/-- **Fields → bytes → fields.**  Every offset that is a whole number of minutes (any sign, any
+magnitude: `%02d` widens beyond 99 h and the parser follows) is written and read back unchanged, with
+the neg-utc flag clear. -/
+theorem timezone_roundtrip (off : Int) (h60 : off % 60 = 0) :
+    ∃ t, formatTimezone off false = .ok t ∧ parseTimezone t = .ok (off, false) := by
+  by_cases hpos : 0 ≤ off
+  · obtain ⟨n, rfl⟩ := Int.eq_ofNat_of_zero_le hpos
+    have hn : n % 60 = 0 := by omega
+    refine ⟨_, formatTimezone_pos n hn, ?_⟩
+    rw [parseTimezone_hhmm 43 (Or.inl rfl) _ _ (by omega)]
+    have : n / 3600 * 3600 + n / 60 % 60 * 60 = n := by omega
+    simp [this]
+  · obtain ⟨n, rfl⟩ : ∃ n : Nat, off = -(n : Int) := ⟨off.natAbs, by omega⟩
+    have hn : n % 60 = 0 := by omega
+    have hn0 : 0 < n := by omega
+    refine ⟨_, formatTimezone_neg n hn false (Or.inl hn0), ?_⟩
+    rw [parseTimezone_hhmm 45 (Or.inr rfl) _ _ (by omega)]
+    have e1 : n / 3600 * 3600 + n / 60 % 60 * 60 = n := by omega
+    simp [e1]
+    intro _
+    omega
+
+/-- `-0000` (the neg-utc flag on a zero offset) round-trips with the flag. -/
+theorem timezone_negzero_roundtrip :
+    formatTimezone 0 true = .ok [45, 48, 48, 48, 48] ∧ parseTimezone [45, 48, 48, 48, 48] = .ok (0, true) := by
+  have h1 := formatTimezone_neg 0 rfl true (Or.inr rfl)
+  have h2 := parseTimezone_hhmm 45 (Or.inr rfl) 0 0 (by omega)
+  exact ⟨h1, h2⟩
+
+/-- **Bytes → fields → bytes.**  Every spelling git emits — a sign, an hours field and a two-digit
+minutes field below 60, `-0000` included — is parsed and written back byte for byte. -/
+theorem timezone_canonical_spelling (s : UInt8) (hs : s = 43 ∨ s = 45) (hh mm : Nat) (hmm : mm < 60) :
+    ∃ off neg, parseTimezone (s :: (fmt02 (hh : Int) ++ fmt02 (mm : Int))) = .ok (off, neg) ∧
+      formatTimezone off neg = .ok (s :: (fmt02 (hh : Int) ++ fmt02 (mm : Int))) := by
+  have e1 : (hh * 3600 + mm * 60) / 3600 = hh := by omega
+  have e2 : (hh * 3600 + mm * 60) / 60 % 60 = mm := by omega
+  have e3 : (hh * 3600 + mm * 60) % 60 = 0 := by omega
+  rcases hs with rfl | rfl
+  · have hp := parseTimezone_hhmm 43 (Or.inl rfl) hh mm (by omega)
+    have e : ¬ ((43 : UInt8) = 45) := by decide
+    simp only [e, if_false] at hp
+    refine ⟨_, _, hp, ?_⟩
+    rw [formatTimezone_pos _ e3, e1, e2]
+  · have hp := parseTimezone_hhmm 45 (Or.inr rfl) hh mm (by omega)
+    simp only [if_true] at hp
+    refine ⟨_, _, hp, ?_⟩
+    rw [formatTimezone_neg _ e3, e1, e2]
+    by_cases hz : hh * 100 + mm = 0
+    · right; simp [hz]
+    · left; omega
+
+/-- Non-vacuity: `+0530` and `-0000` are instances of the canonical spelling. -/
+example : (43 :: (fmt02 (5 : Nat) ++ fmt02 (30 : Nat)) : Bytes) = [43, 48, 53, 51, 48] ∧
+    (45 :: (fmt02 (0 : Nat) ++ fmt02 (0 : Nat)) : Bytes) = [45, 48, 48, 48, 48] := by decide
+
+/-- **Negation witness (finding neg-utc-sticky).**  The flag parsed from `-0000` combined with a
+non-zero offset (what `c.author_timezone = 1800` produces on a commit parsed from `… -0000`, there being
+no public setter for the flag) is written as `-0030`, which reads back as −1800: the value changes sign. -/
+theorem timezone_flag_nonzero_counterexample :
+    formatTimezone 1800 true = .ok [45, 48, 48, 51, 48] ∧
+    parseTimezone [45, 48, 48, 51, 48] = .ok (-1800, false) := by
+  refine ⟨by decide, ?_⟩
+  have := parseTimezone_hhmm 45 (Or.inr rfl) 0 30 (by omega)
+  have e : (45 :: (fmt02 ((0 : Nat) : Int) ++ fmt02 ((30 : Nat) : Int)) : Bytes) = [45, 48, 48, 51, 48] := by decide
+  rw [e] at this
+  simpa using this
+
+/-! ## 4. Trees -/
+
+/-- **Tree entries: fields → bytes → fields** (pure-Python `parse_tree`).  For either hash length, every
+list of entries with non-negative modes, NUL-free names (arbitrary other bytes, spaces included) and
+lowercase-hex ids of that length serialises, and parsing the bytes returns exactly the list. -/
+theorem tree_roundtrip (shaLen : Nat) (hlen : 2 * shaLen ∈ OGen.hexLens) (es : List Entry)
+    (hwf : ∀ e ∈ es, WFEntry shaLen e) :
+    ∃ bs, serializeTree es = .ok bs ∧ parseTreePy shaLen bs = .ok es := by
+  obtain ⟨bs, h1, h2, h3⟩ := parseTreeAux_serialize (pyInt 8) shaLen hlen
+    (fun n _ => pyInt_padZeros _ n) es (fun e he => ⟨hwf e he, Or.inl rfl⟩)
+  exact ⟨bs, h1, h3 _ h2⟩
+
+/-- The same for the Rust `parse_tree`, for modes that fit `u32`. -/
+theorem tree_roundtrip_rs (shaLen : Nat) (hlen : 2 * shaLen ∈ OGen.hexLens) (es : List Entry)
+    (hwf : ∀ e ∈ es, WFEntry shaLen e) (h32 : ∀ e ∈ es, e.mode < 4294967296) :
+    ∃ bs, serializeTree es = .ok bs ∧ parseTreeRs shaLen bs = .ok es := by
+  obtain ⟨bs, h1, h2, h3⟩ := parseTreeAux_serialize (fun s => (rsOctU32 s).map Int.ofNat) shaLen hlen
+    (fun n hn => by
+      rcases hn with hn | hn
+      · have := congrFun hn [45, 55]
+        exact absurd this (by decide)
+      · simp [rsOctU32_padZeros _ n hn]) es (fun e he => ⟨hwf e he, Or.inr (h32 e he)⟩)
+  exact ⟨bs, h1, h3 _ h2⟩
+
+/-- Non-vacuity: both hash lengths are admitted, and a tree with a space in a name, a directory and a
+gitlink is well-formed. -/
+example : 2 * 20 ∈ OGen.hexLens ∧ 2 * 32 ∈ OGen.hexLens := by decide
+
+example : ∀ e ∈ ([⟨[97, 32, 98], 33188, hexlify (List.replicate 20 7)⟩, ⟨[97], 16384, hexlify (List.replicate 20 255)⟩,
+    ⟨[255], 57344, hexlify (List.replicate 20 0)⟩] : List Entry), WFEntry 20 e := by
+  intro e he
+  simp only [List.mem_cons, List.not_mem_nil, or_false] at he
+  rcases he with rfl | rfl | rfl
+  · exact ⟨by decide, by decide, _, by simp, rfl⟩
+  · exact ⟨by decide, by decide, _, by simp, rfl⟩
+  · exact ⟨by decide, by decide, _, by simp, rfl⟩
+
+/-- **`sorted_tree_items` is a sorted permutation** of the dict's items for the order "compare names as
+bytes, a directory's name counting as `name/`" (`key_entry`). -/
+theorem sortedTreeItems_perm (es : List Entry) : (sortedTreeItems es).Perm es := sortBy_perm keyLe es
+
+theorem sortedTreeItems_sorted (es : List Entry) :
+    (sortedTreeItems es).Pairwise (fun a b => keyLe a b = true) :=
+  sortBy_pairwise keyLe keyLe_total keyLe_trans es
+
+/-- Non-vacuity / the rule at work: file `a.b`, directory `a`, file `a-`, file `a0` come out as
+`a-`, `a.b`, `a` (as `a/`), `a0`. -/
+example : (sortedTreeItems [⟨[97, 46, 98], 33188, []⟩, ⟨[97], 16384, []⟩, ⟨[97, 45], 33188, []⟩, ⟨[97, 48], 33188, []⟩]).map (·.name)
+    = [[97, 45], [97, 46, 98], [97], [97, 48]] := by decide
+
+/-- **The order is git's.**  On names without NUL and `/` (the names git accepts) Python's key order
+coincides with `cmp_with_suffix`, the Rust transliteration of git's `base_name_compare` ("compare the
+common prefix, then one more byte, a directory's name being terminated by `/`, any other by NUL") … -/
+theorem tree_order_is_git_order (a b : Entry) (ha : CleanName a.name) (hb : CleanName b.name) :
+    keyLe a b = rsLe a b := keyLe_eq_rsLe a b ha hb
+
+/-- … hence the Python and the Rust `sorted_tree_items` return the same list. -/
+theorem sortedTreeItems_py_eq_rs (es : List Entry) (h : ∀ e ∈ es, CleanName e.name) :
+    sortedTreeItems es = sortedTreeItemsRs es :=
+  sortBy_congr keyLe rsLe es (fun x hx y hy => keyLe_eq_rsLe x y (h x hx) (h y hy))
+
+/-- Negation witness for the hypothesis: with a `/` inside a name the two orders differ (directory `a`
+against file `a/b`: Python compares `a/` < `a/b`, the Rust comparator stops after one byte: equal). -/
+theorem tree_order_needs_clean_names_counterexample :
+    keyLe ⟨[97, 47, 98], 33188, []⟩ ⟨[97], 16384, []⟩ ≠ rsLe ⟨[97, 47, 98], 33188, []⟩ ⟨[97], 16384, []⟩ := by
+  decide
+
+/-- **Canonical trees: bytes → fields → bytes.**  For entries already in `key_entry` order with pairwise
+distinct names (what git writes), `Tree._deserialize` of the serialised bytes gives back the entries and
+`Tree._serialize` of those gives back the bytes — also after any dirty-marking touch, since the cache
+theorem above makes the content equal `serializeTreeObj` of the fields. -/
+theorem tree_canonical_reserialise (shaLen : Nat) (hlen : 2 * shaLen ∈ OGen.hexLens) (es : List Entry)
+    (hwf : ∀ e ∈ es, WFEntry shaLen e) (hsorted : es.Pairwise (fun a b => keyLe a b = true))
+    (hdistinct : es.Pairwise (fun a b => a.name ≠ b.name)) :
+    ∃ bs, serializeTree es = .ok bs ∧ deserializeTreeObj shaLen bs = .ok es ∧ serializeTreeObj es = .ok bs := by
+  obtain ⟨bs, h1, h2⟩ := tree_roundtrip shaLen hlen es hwf
+  refine ⟨bs, h1, ?_, ?_⟩
+  · have := foldl_dictSet_distinct es [] hdistinct (by simp)
+    simp only [deserializeTreeObj, h2, dictOfList, this, List.nil_append]
+  · simp only [serializeTreeObj, sortedTreeItems, sortBy_sorted keyLe es hsorted, h1]
+
+/-! ## 5. Time entries, tags, commits -/
+
+/-- **`parse_time_entry (format_time_entry …)`**: any identity ending in `>` (arbitrary other bytes,
+LF and `> ` inside included), any integer time (negative, beyond 2^63), any whole-minute zone. -/
+theorem time_entry_roundtrip (p : Bytes) (hp : WFPerson p) (t tz : Int) (neg : Bool) (hz : WFTz tz neg) :
+    ∃ v, formatTimeEntry p t tz neg = .ok v ∧ parseTimeEntry v = .ok ⟨some p, some t, some tz, some neg⟩ :=
+  timeEntry_roundtrip p hp t tz neg hz
+
+example : WFPerson [65, 62, 32, 10, 60, 255, 62] ∧ WFTz (-34200) false ∧ WFTz 0 true := by decide
+
+/-- **Tag: fields → bytes → fields**, whatever the object held before (`set_raw_string` on a live
+object).  `WFTag` is git's grammar field by field (see Lemmas/ObjectsCommit.lean). -/
+theorem tag_roundtrip (prev t : Tag) (h : WFTag t) :
+    ∃ bs, serializeTag t = .ok bs ∧ deserializeTag prev bs = .ok t :=
+  tag_roundtrip_lemma prev t h
+
+/-- **Commit: fields → bytes → fields.**  `WFCommit`: any bytes for tree and parents, 0..n parents,
+identities ending in `>`, any integer times, whole-minute zones (`-0000` via the flag), optional
+non-empty encoding and gpgsig (multi-line), mergetags whose text ends in LF and parses as a tag, extra
+headers with well-formed non-reserved names and arbitrary (multi-line) values, any message bytes. -/
+theorem commit_roundtrip (c : Commit) (h : WFCommit c) :
+    ∃ bs, serializeCommit c = .ok bs ∧ deserializeCommit bs = .ok c :=
+  commit_roundtrip_lemma c h
+
+/-- **Canonical bytes → fields → bytes.**  Bytes that are the serialisation of some well-formed commit
+(the grammar git emits, which the correspondence check and C git tie to `serializeCommit`) are
+reproduced exactly by parsing and re-serialising — what any dirty-marking setter triggers. -/
+theorem commit_canonical_reserialise (bs : Bytes) (hc : ∃ c, WFCommit c ∧ serializeCommit c = .ok bs) :
+    ∃ c, deserializeCommit bs = .ok c ∧ serializeCommit c = .ok bs := by
+  obtain ⟨c, hwf, hs⟩ := hc
+  obtain ⟨bs', h1, h2⟩ := commit_roundtrip c hwf
+  rw [hs] at h1
+  cases h1
+  exact ⟨c, h2, hs⟩
+
+theorem tag_canonical_reserialise (bs : Bytes) (hc : ∃ t, WFTag t ∧ serializeTag t = .ok bs) :
+    ∃ t, deserializeTag Tag.empty bs = .ok t ∧ serializeTag t = .ok bs := by
+  obtain ⟨t, hwf, hs⟩ := hc
+  obtain ⟨bs', h1, h2⟩ := tag_roundtrip Tag.empty t hwf
+  rw [hs] at h1
+  cases h1
+  exact ⟨t, h2, hs⟩
+
+/-- Non-vacuity: a merge commit with odd identity bytes, a negative time, `-0000`, an encoding, a
+multi-line extra header whose value ends in LF, a multi-line gpgsig with a blank line, and a message
+that looks like headers is well-formed. -/
+example : WFCommit
+    { tree := some [97], parents := [[98], [99]],
+      author := ⟨some [255, 32, 60, 62], some (-5), some 19800, some false⟩,
+      committer := ⟨some [67, 62], some 99999999999999999999, some 0, some true⟩,
+      encoding := some [108], mergetag := [],
+      extra := [([72, 71, 58, 120], [49, 10, 10, 50, 10])],
+      gpgsig := some [45, 10, 10, 45], message := some [116, 114, 101, 101, 32, 120, 10] } :=
+  ⟨⟨_, rfl⟩, ⟨_, _, _, _, rfl, by decide, by decide⟩, ⟨_, _, _, _, rfl, by decide, by decide⟩, by decide,
+   by simp, by decide, by decide, ⟨_, rfl⟩⟩
+
+/-- **Only the edited header changes.**  Replace the author of a well-formed commit by another
+well-formed author: the two serialisations share everything before and everything after the author
+line, byte for byte. -/
+theorem one_field_edit_author (c : Commit) (h : WFCommit c) (a' : TimeInfo) (ha' : WFTime a') :
+    ∃ pre post x x', serializeCommit c = .ok (pre ++ x ++ post) ∧
+      serializeCommit { c with author := a' } = .ok (pre ++ x' ++ post) ∧
+      (∃ v, x = formatHeader (OGen.hdrAuthor, v)) ∧ (∃ v', x' = formatHeader (OGen.hdrAuthor, v')) := by
+  obtain ⟨tree, parents, author, committer, encoding, mergetag, extra, gpgsig, message⟩ := c
+  obtain ⟨⟨t, ht⟩, ⟨pa, ta, za, na, hau, hpa, hza⟩, ⟨pc, tc, zc, nc, hco, hpc, hzc⟩, _, _, _, _, ⟨m, hm⟩⟩ := h
+  obtain ⟨pa', ta', za', na', hau', hpa', hza'⟩ := ha'
+  simp only at ht hau hco hm
+  subst ht; subst hau; subst hco; subst hm; subst hau'
+  have slots : commitSlots = [.tree, .parent, .author, .committer, .encoding, .mergetag, .extra, .gpgsig] := by decide
+  obtain ⟨va, hva1, _⟩ := timeEntry_roundtrip pa hpa ta za na hza
+  obtain ⟨va', hva1', _⟩ := timeEntry_roundtrip pa' hpa' ta' za' na' hza'
+  obtain ⟨vc, hvc1, _⟩ := timeEntry_roundtrip pc hpc tc zc nc hzc
+  have fh : ∀ (a b : Headers), formatHeaders (a ++ b) = formatHeaders a ++ formatHeaders b := by
+    intro a b
+    induction a with
+    | nil => rfl
+    | cons x xs ih => simp [formatHeaders, ih]
+  refine ⟨formatHeaders ((OGen.hdrTree, t) :: parents.map fun p => (OGen.hdrParent, p)),
+    formatHeaders ((OGen.hdrCommitter, vc) :: (optHeader OGen.hdrEncoding encoding ++
+        ((mergetag.map fun raw => (OGen.hdrMergetag, raw.dropLast)) ++ (extra ++ optHeader OGen.hdrGpgsig gpgsig))))
+      ++ [10] ++ m,
+    formatHeader (OGen.hdrAuthor, va), formatHeader (OGen.hdrAuthor, va'), ?_, ?_, ⟨va, rfl⟩, ⟨va', rfl⟩⟩
+  · simp [serializeCommit, slots, collect, commitSlot, timeHeader, hva1, hvc1, formatMessage, formatHeaders, fh]
+  · simp [serializeCommit, slots, collect, commitSlot, timeHeader, hva1', hvc1, formatMessage, formatHeaders, fh]
+
+/-- witness data: a tag text without trailing LF (`object a\ntype tree\ntag v\n\nfoo`) -/
+def cxTagText : Bytes := [111, 98, 106, 101, 99, 116, 32, 97, 10, 116, 121, 112, 101, 32, 116, 114, 101, 101, 10,
+  116, 97, 103, 32, 118, 10, 10, 102, 111, 111]
+
+def cxCommit (mergetag : List Bytes) (message : Option Bytes) : Commit :=
+  ⟨some [97], [], ⟨some [65, 62], some 1, some 0, some false⟩, ⟨some [67, 62], some 1, some 0, some false⟩,
+   none, mergetag, [], none, message⟩
+
+/-- **Negation witness (finding mergetag-lf).**  `Commit._serialize` cuts the last byte of every
+mergetag text (`as_raw_string()[:-1]`) and the parser appends LF: a mergetag whose text does not end in
+LF (`…\n\nfoo`) comes back as `…\n\nfo\n`. -/
+theorem mergetag_without_lf_counterexample :
+    ∃ bs, serializeCommit (cxCommit [cxTagText] (some [109])) = .ok bs ∧
+      deserializeCommit bs = .ok (cxCommit [cxTagText.dropLast ++ [10]] (some [109])) ∧
+      cxTagText.dropLast ++ [10] ≠ cxTagText := by
+  refine ⟨_, rfl, ?_, by decide⟩
+  decide +kernel
+
+/-- witness data: `tree a\nauthor A> 1 +0000\ncommitter C> 1 +0000\n` — no blank line, no message -/
+def cxNoBlank : Bytes := [116, 114, 101, 101, 32, 97, 10, 97, 117, 116, 104, 111, 114, 32, 65, 62, 32, 49, 32, 43, 48,
+  48, 48, 48, 10, 99, 111, 109, 109, 105, 116, 116, 101, 114, 32, 67, 62, 32, 49, 32, 43, 48, 48, 48, 48, 10]
+
+/-- **Negation witness (finding missing-message).**  A commit that ends after its last header line
+(no blank line — accepted by git, parsed as `message = None`) is re-serialised with a blank line: one
+byte more than the original. -/
+theorem missing_message_counterexample :
+    deserializeCommit cxNoBlank = .ok (cxCommit [] none) ∧
+    serializeCommit (cxCommit [] none) = .ok (cxNoBlank ++ [10]) := by
+  decide +kernel
 
 end Dulwich.Props.C01
